@@ -41,6 +41,8 @@ type Sub struct {
 	Buffer         int
 	// Drain makes Close wait (bounded by DrainBound) until every message handed to a consumer has been
 	// settled before the output channels are closed -- a subscriber that drains its in-flight messages.
+	// IgnoreCtx: subscriptions end only with Close(), not with their context (a source that keeps handing over for a while)
+	IgnoreCtx  bool
 	Drain      bool
 	DrainBound time.Duration
 	sent       []*message.Message
@@ -74,7 +76,11 @@ func (s *Sub) Subscribe(ctx context.Context, topic string) (<-chan *message.Mess
 	go func() {
 		select {
 		case <-ctx.Done():
-			s.drain()
+			if s.IgnoreCtx {
+				<-s.closing
+			} else {
+				s.drain()
+			}
 		case <-s.closing:
 		}
 		sp.close()
